@@ -12,6 +12,11 @@ mod c04;
 mod c05;
 mod c06;
 mod c07;
+mod c11;
+mod c12;
+mod c13;
+mod c14;
+mod c18;
 mod subj;
 mod sweep_parse;
 
@@ -35,7 +40,7 @@ pub struct PropDef {
 }
 
 fn registry() -> Vec<PropDef> {
-    vec![sweep_parse::c01(), sweep_parse::c02(), c03::def(), c04::def(), c05::def(), c06::def(), c07::def(), bfs::c08(), bfs::c09(), bfs::c10()]
+    vec![sweep_parse::c01(), sweep_parse::c02(), c03::def(), c04::def(), c05::def(), c06::def(), c07::def(), bfs::c08(), bfs::c09(), bfs::c10(), c11::def(), c12::def(), c13::def(), c14::def(), c18::def()]
 }
 
 fn find(id: &str) -> PropDef {
